@@ -179,12 +179,15 @@ def main(tier, seed, replay=None):
                     ex = {"transport": name, "execmodel": em, "program_seed": ps, "big": big}
                     ck.case((name, em, ps), nontrivial=True)
                     ck.count("transport_" + name)
-                    try:
+                    def work(spec=spec):
                         gw = group.makegateway(spec)
-                        tr = X.run_programs(gw, random.Random(ps), big=big, light=(tier == "quick"))
-                    except Exception as e:  # noqa
-                        ck.fail("transport-fails:" + name, {**ex, "error": repr(e)[:300]})
+                        return gw, X.run_programs(gw, random.Random(ps), big=big, light=(tier == "quick"))
+
+                    st, val = X.with_timeout(work, 180)
+                    if st != "ok":
+                        ck.fail("transport-fails:" + name, {**ex, "error": "timeout after 180 s" if st == "timeout" else repr(val)[:300]})
                         continue
+                    gw, tr = val
                     if tr != base:
                         diffs = [(a, b) for a, b in zip(base, tr) if a != b][:3]
                         ck.fail("transcript-differs-from-direct-popen:%s:%s" % (name, diffs[0][0][0] if diffs else "length"), {**ex, "diffs": repr(diffs)[:1500]})
@@ -234,9 +237,6 @@ def main(tier, seed, replay=None):
                     if pid_alive(pid):
                         ck.fail("exit-close_write-does-not-end-the-proxied-process:" + name, {"control": name, "execmodel": em, "pid": pid})
             finally:
-                try:
-                    group.terminate(timeout=3)
-                except Exception:  # noqa
-                    pass
+                X.with_timeout(lambda: group.terminate(timeout=3), 30)
     ck.cov["traces_validated_against_impl"] = ck.cov.get("proxy_cases", 0)
     return ck.finish(rule="(A) generated frame streams (payloads 0..5000 bytes over all byte values, extreme ids and types) behind the bootstrap byte, split into io-channel items as the forwarder does, at random cut points, or one byte per item, a quarter of them truncated at a random byte: the real ChannelFileRead/ProxyIO.read/Message.from_io vs the extracted model; (B) 14 transcript programs (typed echo of generated values, payloads up to 300 kB quick / 4 MB thorough, remote error, sub-channels, callbacks, stdout noise, module/function exec, status) on popen//python=, popen//via, popen//via//python=, socket//installvia x remote execution models vs direct popen; (C) kill / wait / exit through the proxy vs direct. distinct = (stream shape) resp. (transport, execmodel, program seed).")
